@@ -205,13 +205,24 @@ func decodeComp(comp *comp) (*CalendarCompRequest, error) {
 }
 
 func decodeCalendarDataReq(calendarData *calendarDataReq) (*CalendarCompRequest, error) {
-	if calendarData.Comp == nil {
-		return &CalendarCompRequest{
-			AllProps: true,
-			AllComps: true,
-		}, nil
+	req := &CalendarCompRequest{
+		AllProps: true,
+		AllComps: true,
 	}
-	return decodeComp(calendarData.Comp)
+	if calendarData.Comp != nil {
+		var err error
+		req, err = decodeComp(calendarData.Comp)
+		if err != nil {
+			return nil, err
+		}
+	}
+	if calendarData.Expand != nil {
+		req.Expand = &CalendarExpandRequest{
+			Start: time.Time(calendarData.Expand.Start),
+			End:   time.Time(calendarData.Expand.End),
+		}
+	}
+	return req, nil
 }
 
 func (h *Handler) handleQuery(r *http.Request, w http.ResponseWriter, query *calendarQuery) error {
